@@ -98,12 +98,19 @@ unsafe impl GlobalAlloc for VAlloc {
     }
 }
 
-/// check every block still parked in the ring for damage (without releasing it)
-pub fn scan_quarantine() -> usize {
+/// ring position now (start of a case)
+pub fn q_mark() -> usize {
+    unsafe { NEXT }
+}
+/// check the blocks parked in the ring since `mark` for damage (without releasing them);
+/// adds the damage found on blocks that already left the ring
+pub fn scan_quarantine(mark: usize) -> usize {
     lock();
     let mut bad = 0;
     unsafe {
-        for i in 0..RING {
+        let mut i = mark;
+        let mut steps = 0;
+        while i != NEXT && steps < RING {
             let s = &SLOTS[i];
             if !s.ptr.is_null() {
                 let bytes = std::slice::from_raw_parts(s.ptr, s.size);
@@ -111,10 +118,12 @@ pub fn scan_quarantine() -> usize {
                     bad += 1;
                 }
             }
+            i = (i + 1) % RING;
+            steps += 1;
         }
     }
     unlock();
-    bad + POISON_DAMAGE.load(Ordering::Relaxed)
+    bad + POISON_DAMAGE.swap(0, Ordering::Relaxed)
 }
 
 // ---- ownership tracking: which live blocks were allocated while a subject call was running ----
@@ -125,6 +134,7 @@ const TOMB: usize = usize::MAX;
 static mut TABLE: [usize; TAB] = [EMPTY; TAB];
 static mut TAB_LIVE: usize = 0;
 static mut TAB_USED: usize = 0;
+static mut USED_IDX: [u32; TAB / 2 + 1] = [0; TAB / 2 + 1];
 pub static TAB_OVERFLOW: AtomicBool = AtomicBool::new(false);
 
 #[inline]
@@ -141,6 +151,7 @@ unsafe fn tab_insert(p: usize) {
         let s = TABLE[i];
         if s == EMPTY {
             TABLE[i] = p;
+            USED_IDX[TAB_USED] = i as u32;
             TAB_USED += 1;
             TAB_LIVE += 1;
             return;
@@ -175,8 +186,8 @@ unsafe fn tab_remove(p: usize) -> bool {
 pub fn tab_reset() {
     lock();
     unsafe {
-        for i in 0..TAB {
-            TABLE[i] = EMPTY;
+        for j in 0..TAB_USED {
+            TABLE[USED_IDX[j] as usize] = EMPTY;
         }
         TAB_LIVE = 0;
         TAB_USED = 0;
